@@ -783,6 +783,166 @@ Proof.
 Qed.
 
 (* ================================================================== *)
+(* 7. record fields: read_struct + get_field return the cell at        *)
+(*    base + memlayout.get_dotted_index, the operand of readidx        *)
+
+(* the type of the field a path of names ends in (Lvalue.type on records) *)
+Fixpoint dotted_type (env : renv) (t : ty) (path : list str) : option ty :=
+  match path with
+  | [] => Some t
+  | f :: rest =>
+    match t with
+    | TRecord n =>
+      match lookup_rec env n with
+      | None => None
+      | Some (fs, env') =>
+        match field_offset env' fs f 0 with
+        | None => None
+        | Some (_, ft) => dotted_type env' ft rest
+        end
+      end
+    | _ => None
+    end
+  end.
+
+Definition cell_or_default (ft : ty) (c : option cell) : sval :=
+  match c with Some c' => cell_sval c' | None => SV (default_val ft) end.
+
+(* the value the debugger holds for a field of type ft stored at cell i *)
+Definition field_val (h : list seg) (env : renv) (g : Z) (ft : ty) (i : Z) : res sval :=
+  match ft with
+  | TRecord m => read_struct h env m g i
+  | _ => rdo c <- get_cell h g i; Ok (cell_or_default ft c)
+  end.
+
+Lemma field_offset_shift env f : forall fs a d,
+  field_offset env fs f (a + d) =
+  match field_offset env fs f a with Some (o, t) => Some (o + d, t) | None => None end.
+Proof.
+  induction fs as [|[f0 t0] fs IH]; intros a d; [reflexivity|].
+  cbn [field_offset]. destruct (str_eqb f f0); [reflexivity|].
+  destruct (type_size env t0) as [sz|]; [|reflexivity].
+  replace (a + d + sz) with (a + sz + d) by lia. apply IH.
+Qed.
+
+Lemma read_fields_assoc h env g : forall fs idx l,
+  read_fields h (fun m i => read_struct h env m g i) (type_size env) g fs idx = Ok l ->
+  forall f off ft, field_offset env fs f idx = Some (off, ft) ->
+  exists v, assoc l f = Some v /\ field_val h env g ft off = Ok v.
+Proof.
+  induction fs as [|[f0 t0] fs IH]; intros idx l Hr f off ft Ho; [discriminate Ho|].
+  cbn [read_fields] in Hr. cbn [field_offset] in Ho.
+  assert (Hfv : (match t0 with
+                 | TRecord m => read_struct h env m g idx
+                 | _ => rdo c <- get_cell h g idx;
+                        Ok (match c with Some c' => cell_sval c' | None => SV (default_val t0) end)
+                 end) = field_val h env g t0 idx) by (destruct t0; reflexivity).
+  rewrite Hfv in Hr.
+  destruct (field_val h env g t0 idx) as [v0| |k0|] eqn:Ev; cbn [rbind] in Hr; try discriminate.
+  destruct (type_size env t0) as [sz|] eqn:Es; [|discriminate].
+  destruct (read_fields h (fun m i => read_struct h env m g i) (type_size env) g fs (idx + sz))
+    as [rest| |k0|] eqn:Er; cbn [rbind] in Hr; try discriminate.
+  inversion Hr; subst l; clear Hr.
+  cbn [assoc].
+  destruct (str_eqb f f0) eqn:Ef.
+  - inversion Ho; subst off ft. exists v0. split; [reflexivity | exact Ev].
+  - exact (IH _ _ Er f off ft Ho).
+Qed.
+
+Lemma read_struct_is_rec h g : forall env n base v,
+  read_struct h env n g base = Ok v -> exists l, v = SRec l.
+Proof.
+  induction env as [|[n0 fs] env' IH]; intros n base v Hr; [discriminate Hr|].
+  cbn [read_struct] in Hr. destruct (str_eqb n n0).
+  - destruct (read_fields h (fun m i => read_struct h env' m g i) (type_size env') g fs base)
+      as [l| |k0|]; cbn [rbind] in Hr; try discriminate.
+    inversion Hr. eauto.
+  - eauto.
+Qed.
+
+Theorem read_struct_path h g : forall env n base v,
+  read_struct h env n g base = Ok v ->
+  forall path off ft, path <> [] ->
+  dotted_index env (TRecord n) path = Some off ->
+  dotted_type env (TRecord n) path = Some ft ->
+  (forall m, ft <> TRecord m) ->
+  exists c, get_cell h g (base + off) = Ok c /\ get_field v path = Ok (cell_or_default ft c).
+Proof.
+  induction env as [|[n0 fs] env' IH]; intros n base v Hr path off ft Hne Hd Hp Hft; [discriminate Hr|].
+  destruct path as [|f rest]; [congruence|].
+  cbn [read_struct] in Hr.
+  cbn [dotted_index user_type_name lookup_rec] in Hd.
+  cbn [dotted_type lookup_rec] in Hp.
+  destruct (str_eqb n n0) eqn:En.
+  - destruct (read_fields h (fun m i => read_struct h env' m g i) (type_size env') g fs base)
+      as [l| |k0|] eqn:El; cbn [rbind] in Hr; try discriminate.
+    inversion Hr; subst v; clear Hr.
+    destruct (field_offset env' fs f 0) as [[o ft0]|] eqn:Eo; [|discriminate Hd].
+    destruct (dotted_index env' ft0 rest) as [o'|] eqn:Ed; [|discriminate Hd].
+    inversion Hd; subst off; clear Hd.
+    assert (Eo' : field_offset env' fs f base = Some (base + o, ft0)).
+    { replace base with (0 + base) at 1 by lia. rewrite field_offset_shift, Eo. f_equal. f_equal. lia. }
+    destruct (read_fields_assoc h env' g fs base l El f (base + o) ft0 Eo') as (vf & Ha & Hv).
+    cbn [get_field]. rewrite Ha.
+    destruct rest as [|f2 r2].
+    + cbn [dotted_index] in Ed. inversion Ed; subst o'.
+      cbn [dotted_type] in Hp. inversion Hp; subst ft0.
+      unfold field_val in Hv.
+      destruct ft as [k|m|bs e|e]; try (exfalso; eapply Hft; reflexivity).
+      all: destruct (get_cell h g (base + o)) as [c| |k0|] eqn:Ec; cbn [rbind] in Hv; try discriminate;
+        inversion Hv; subst vf; exists c; (split; [replace (base + (o + 0)) with (base + o) by lia; exact Ec | reflexivity]).
+    + destruct ft0 as [k|m|bs e|e]; try discriminate Hp.
+      cbn [field_val] in Hv.
+      destruct (read_struct_is_rec h g env' m (base + o) vf Hv) as (l2 & ->).
+      assert (Hne2 : f2 :: r2 <> []) by discriminate.
+      destruct (IH m (base + o) (SRec l2) Hv (f2 :: r2) o' ft Hne2 Ed Hp Hft) as (c & Hc & Hg).
+      exists c. split; [replace (base + (o + o')) with (base + o + o') by lia; exact Hc | exact Hg].
+  - change (dotted_index env' (TRecord n) (f :: rest) = Some off) in Hd.
+    change (dotted_type env' (TRecord n) (f :: rest) = Some ft) in Hp.
+    exact (IH n base v Hr (f :: rest) off ft Hne Hd Hp Hft).
+Qed.
+
+(* a field path of a record variable of the current frame *)
+Theorem field_agrees di m s g sg cs n rn base path off ft c0 c v :
+  in_frame s g sg cs -> not_const di cs n ->
+  main_type di n = TRecord rn ->
+  has_key (d_globals di) n = false ->
+  local_var_idx (d_env di) (r_params (find_routine di cs)) (r_locals (find_routine di cs)) n = Some base ->
+  0 <= base ->
+  nth_error (s_cells sg) (Z.to_nat base) = Some c0 ->
+  (forall g1 i1, c0 <> Some (CRef g1 i1)) ->
+  read_struct (heap s) (d_env di) rn g base = Ok v ->
+  path <> [] ->
+  dotted_index (d_env di) (TRecord rn) path = Some off ->
+  dotted_type (d_env di) (TRecord rn) path = Some ft ->
+  (forall m0, ft <> TRecord m0) ->
+  0 <= base + off ->
+  nth_error (s_cells sg) (Z.to_nat (base + off)) = Some (Some c) ->
+  (cell_ty c =? 7) = false ->
+  dbg_print di s (ELv n [] path) = DVal (pv_of c) /\
+  exec m (IReadidx true (cell_ty c) base off) s = R tt (set_stack s (c :: stack s)).
+Proof.
+  intros Hf Hc Ht Hg Hl Hb Hc0 Hnr Hrs Hne Hd Hp Hft Hbo Hcell Hty.
+  pose proof Hf as (Hcur & Hg0 & Hs & _).
+  split.
+  - unfold dbg_print. rewrite deval_lv, (eval_lvalue_var di s g sg cs) by assumption.
+    unfold eval_var. rewrite Hg, Hl.
+    rewrite (get_cell_ok (heap s) g base sg c0) by assumption.
+    assert (Hfol : (match c0 with
+                    | Some (CRef g1 i1) => rdo c1 <- get_cell (heap s) g1 i1; Ok (g1, i1, c1)
+                    | _ => Ok (g, base, c0)
+                    end) = Ok (g, base, c0)).
+    { destruct c0 as [[ | | | | |g1 i1]|]; try reflexivity. exfalso. eapply Hnr. reflexivity. }
+    rewrite Hfol. rewrite Ht. cbn [map is_nil negb]. rewrite Hrs. cbn [rbind].
+    destruct (read_struct_path (heap s) g (d_env di) rn base v Hrs path off ft Hne Hd Hp Hft) as (cc & Hcc & Hgf).
+    rewrite Hgf.
+    rewrite (get_cell_ok (heap s) g (base + off) sg (Some c) Hg0 Hs Hbo Hcell) in Hcc.
+    inversion Hcc; subst cc. cbn [cell_or_default].
+    destruct c; try discriminate Hty; reflexivity.
+  - apply readidx_set_pure with (g := g) (sg := sg); assumption.
+Qed.
+
+(* ================================================================== *)
 (* 6. a concrete stopped program (non-vacuity and refutations)         *)
 
 (* TYPE pt: x AS INTEGER, y AS LONG.   DIM SHARED g%.   CONST c% = 7.
